@@ -294,6 +294,8 @@ def run_special(cfg, seed, scenario):
     'incompatible:<kind>' — a peer that answers SYN and CONNECT correctly at packet level but with whom no connection can be
         established: kind = creds-vs-keyless (the client presents a ticket to a port served without a key: the connection response
         is empty) | keyless-vs-keyed (a client without credentials at a keyed port); then a compatible client from the same address.
+    'ticket-again:<seconds>' — an ordinary session with a fresh ticket, a graceful disconnect, and <seconds> later the SAME credentials
+        (byte-identical ticket) presented to the same server again.
     'unread-unreliable:<side>' — <side> (c|s) sends 150 unreliable datagrams that the receiving application never reads, then
         reliable traffic, a graceful disconnect and a reconnect must go on as usual;
     'extra-substreams:<who>' — <who> (c|s) is configured with 3 substreams, the peer with 1 (negotiated: 1); the application has a
@@ -500,7 +502,7 @@ def run_special(cfg, seed, scenario):
                                         log.append(("app", sim.now(), "c", "sendu", 0, b"u%d" % j))
                                         await client.send_unreliable(b"u%d" % j)
                                     await send("c", client, b"after the burst")
-                                if kind in ("unread-unreliable", "extra-substreams"):
+                                if kind in ("unread-unreliable", "extra-substreams", "ticket-again"):
                                     await anyio.sleep(quant(0.2617))
                                     di = op_start("disconnect")
                                     log.append(("app", sim.now(), "c", "disconnect", 0, b""))
@@ -527,7 +529,7 @@ def run_special(cfg, seed, scenario):
                             log.append(("app", sim.now(), "c", "connect-failed", 0, b""))
                         else:
                             out.errors.append(("client", repr(e)))
-                    await anyio.sleep(quant(bound + 1.0))
+                    await anyio.sleep(quant(bound + 1.0 if kind != "ticket-again" else float(arg)))
                     out.server_table = len(stream_ref["stream"].clients)
                     log.append(("app", sim.now(), "c", "reconnect", 0, b""))
                     ri = op_start("reconnect")
@@ -541,7 +543,7 @@ def run_special(cfg, seed, scenario):
                         op_end(ri, "failed:" + repr(e)[:80])
 
         async def guarded():
-            with anyio.move_on_after(10 * bound + 60) as scope:
+            with anyio.move_on_after(10 * bound + 60 + (float(arg) if kind == "ticket-again" else 0)) as scope:
                 await main()
             out.timed_out = scope.cancelled_caught
         try:
